@@ -44,6 +44,14 @@ def selftest():
 _CODEC_FUNCS = []
 
 
+def _enum_seq():
+    leaf = {"t": "x", "a": [["k", "v"]], "c": None}
+    for kind in ("bad_token", "cut"):
+        for depth, count in ((0, 6), (90, 4), (130, 3)):
+            yield {"sub": "seq", "frames": [{"tree": leaf}] + [{"tree": leaf, "fault": [kind, depth, i]} for i in range(count)]
+                   + [{"tree": {"t": "p", "a": [], "c": [leaf, leaf]}}, {"tree": leaf}]}
+
+
 def _case_size(case):
     """bytes of strings and content in the case's tree (the codec's loops are linear in it)"""
     def size(t):
@@ -82,6 +90,41 @@ def _run_case(case):
     sub = case["sub"]
     if sub == "dict":
         return _dict_case(case, out)
+    if sub == "seq":
+        # one decoder object for a whole connection (what the coder layer holds): frames that cannot be decoded - cut off, an
+        # unknown token where a child should start, at generated nesting depth - are refused and leave nothing behind; every
+        # valid frame before and after them decodes to its tree
+        dec = ReadDecoder(_td)
+        out.label("seq")
+        n_faulty = 0
+        for k, item in enumerate(case["frames"]):
+            tree = G.materialize(item["tree"])
+            fault = item.get("fault")
+            if fault:
+                # a chain of single children (written by hand: 8-bit list headers, one-letter literal tags) at whose bottom, where
+                # the innermost node should start, there is a byte that is no list header - or the frame simply ends
+                n_faulty += 1
+                frame = b"\x00" + b"".join(b"\xf8\x02\xfc\x01" + bytes([97 + i % 5]) + b"\xf8\x01" for i in range(1 + fault[1]))
+                frame += bytes([0xf7, 0x02, 0x03][:1 + fault[2] % 3]) if fault[0] == "bad_token" else b""
+                try:
+                    dec.getProtocolTreeNode(bytearray(frame))
+                    out.label("seq:damaged_frame_accepted")
+                except Exception:
+                    out.label("seq:damaged_frame_refused")
+                continue
+            frame = R.encode(tree, R.Choices(item.get("choices", ())))
+            try:
+                back = T.from_node(dec.getProtocolTreeNode(bytearray(frame)))
+            except Exception as e:
+                out.fail("ref_to_lib", "seq:valid_frame_refused_after_%s" % ("undecodable_frames" if n_faulty else "valid_frames"),
+                         {"error": repr(e)[:300], "index": k, "undecodable_before": n_faulty})
+                return out
+            d = T.diff(tree, back)
+            if d:
+                out.fail("ref_to_lib", "seq:differs_after_%s" % ("undecodable_frames" if n_faulty else "valid_frames"), {"diff": d, "index": k})
+                return out
+        out.info = {"nt": n_faulty >= 1}
+        return out
     tree = G.materialize(case["tree"])
     feats = G.features(tree)
     name = case.get("name")
@@ -91,7 +134,7 @@ def _run_case(case):
             out.label(f)
         out.info = {"nt": bool(feats & G.NONTRIVIAL_FEATURES)}
         try:
-            frame = bytes(bytearray(_enc.protocolTreeNodeToBytes(T.to_node(tree))))
+            frame = bytes(bytearray(WriteEncoder(_td).protocolTreeNodeToBytes(T.to_node(tree))))
         except Exception as e:
             out.fail("lib_to_ref", "lib_to_ref:encode_raises:%s" % type(e).__name__, {"error": repr(e), "name": name})
             return out
@@ -116,7 +159,7 @@ def _run_case(case):
             out.label("deflate")
         out.info = {"nt": bool(taken) or deflate}
         try:
-            node = _dec.getProtocolTreeNode(bytearray(frame))
+            node = ReadDecoder(_td).getProtocolTreeNode(bytearray(frame))
             back = T.from_node(node)
         except Exception as e:
             kinds = sorted(set(site for site, v, n in ch.used if v != 0))
@@ -155,14 +198,14 @@ def _dict_case(case, out):
             continue
         # behaviour: the word encodes to the pinned index bytes, the index bytes decode to the word
         expect = bytes([R.DICT_0 + idx // 256, idx % 256]) if secondary else bytes([idx])
-        frame = bytes(bytearray(_enc.protocolTreeNodeToBytes(T.to_node((ref_word, {}, None)))))
+        frame = bytes(bytearray(WriteEncoder(_td).protocolTreeNodeToBytes(T.to_node((ref_word, {}, None)))))
         if frame != b"\x00\xf8\x01" + expect:
             out.fail("dictionary", "dictionary:encodes_differently",
                      {"word": ref_word, "frame": frame.hex(), "expected": (b"\x00\xf8\x01" + expect).hex()},
                      case={"sub": "dict", "lo": g, "hi": g + 1})
             return out
         try:
-            node = _dec.getProtocolTreeNode(bytearray(b"\x00\xf8\x03" + expect + b"\xfc\x01k" + expect))
+            node = ReadDecoder(_td).getProtocolTreeNode(bytearray(b"\x00\xf8\x03" + expect + b"\xfc\x01k" + expect))
             ok = node.tag == ref_word and node.attributes == {"k": ref_word}
         except Exception as e:
             ok = False
@@ -213,17 +256,23 @@ def plan(tier):
     b = st.builds(lambda t, c, z: {"sub": "b", "tree": t, "choices": c, "deflate": z}, trees, choices,
                   st.sampled_from([False, False, False, True]))
     a = trees.map(lambda t: {"sub": "a", "tree": t})
+    fault = st.one_of(st.none(), st.none(), st.tuples(st.sampled_from(["bad_token", "cut"]), st.sampled_from([0, 1, 3, 40, 90, 130]), st.integers(0, 5)).map(list))
+    item = st.builds(lambda t, c, f: dict({"tree": t, "choices": c}, **({"fault": f} if f else {})), G.tree_strategy("quick"),
+                     st.lists(st.integers(0, 5), min_size=0, max_size=20), fault)
+    seq = st.lists(item, min_size=2, max_size=8).map(lambda fs: {"sub": "seq", "frames": fs})
     return {
         "shards": 16,
         "enumerations": [
             ("dictionary", _enum_dict),
             ("boundary_trees", _enum_boundary(tier)),
             ("words_as_literals", _enum_words),
+            ("frames_through_one_decoder", _enum_seq),
         ],
         "exhaustive": ["dictionary"],
         "strategies": [
             ("lib_to_ref", a, 130 if quick else 4000),
             ("ref_to_lib", b, 200 if quick else 4000),
+            ("frames_through_one_decoder", seq, 40 if quick else 1500),
         ],
         "shrink": "hypothesis",
         "budget_s": 150 if quick else 1500,
